@@ -21,7 +21,8 @@ pub fn model(tier: Tier, world: &str) -> Hist {
     let (w, s0) = world_by_name(if world.is_empty() { "A" } else { world });
     let roots = standard_roots(&w, &s0, false);
     let mut alpha = Alphabet::standard(vec![0, 1], vec![0, 1]);
-    alpha.collect = false;
+    alpha.collect = true;
+    alpha.pulse = true;
     alpha.max_clock_devs = if tier == Tier::Quick { 1 } else { 2 };
     alpha.max_price_devs = 1;
     alpha.price_moves = vec![(3, 1)];
